@@ -292,6 +292,27 @@ Proof.
 Qed.
 Print Assumptions C15_nearby_refuted_np24.
 
+(* 17. Where all the sources of a dead/noisy channel hold the same value v at a sample (a common-mode
+   transient, all channels at the rail), the repaired sample IS v: the weights sum to one.  (Exact arithmetic;
+   for the float implementation the harness demands exactly v for float32 data - the float64 weighted sum
+   v(1 + d), |d| < 2^-40, rounds back to the float32 v - and 2^-40 relative for float64 data.) *)
+Theorem C15_equal_sources_give_that_value :
+  forall (F : Type) (O : ops F), ordered_field O ->
+  forall (thr : F) (W : nat -> list F) (labels : list Z) (data : list (list F)) (ns i t : nat) (v : F),
+  length labels = length data ->
+  (forall p, length (W p) = length data) ->
+  (forall p u, In u (W p) -> fle O (f0 O) u) ->
+  (forall j, (j < length data)%nat -> length (nth j data []) = ns) ->
+  (i < length data)%nat -> is_bad (nth i labels 0) = true -> (t < ns)%nat ->
+  sources O thr labels (W i) <> [] ->
+  (forall j w, In (j, w) (sources O thr labels (W i)) -> nth t (nth j data []) (f0 O) = v) ->
+  nth t (nth i (interpolate O thr W labels data) []) (f0 O) = v.
+Proof.
+  intros F O [H1 [H2 [H3 [H4 [H5 H6]]]]] thr W labels data ns i t v.
+  exact (equal_sources_value F O H1 H2 H3 H4 H5 H6 thr W labels data ns i t v).
+Qed.
+Print Assumptions C15_equal_sources_give_that_value.
+
 (* 13. The median entry exists: for a window of 2h+1 entries `median` returns an entry of the window with at
    most h entries strictly below and at most h strictly above it (the k-th order statistic exists in every
    finite list of a total order); with theorem 8 this determines its value. *)
